@@ -67,7 +67,8 @@ def sched_violations(ctx, classes):
     if rc != 0:
         return [{"class": "harness-crash", "what": f"harness alusched exited {rc}: {o[-300:]}", "replay": {}, "no_input": True}], 0
     rep = json.load(open(f"{out}/alusched.report.json"))
-    return [{"class": v["class"], "what": v["kind"], "replay": v["replay"]} for v in rep["violations"] if v["class"] in classes], rep["evaluations"]
+    return [{"class": v["kind"] if v["kind"] in classes else v["class"], "what": v["kind"], "replay": v["replay"]}
+            for v in rep["violations"] if v["class"] in classes or v["kind"] in classes], rep["evaluations"]
 
 
 def c10_run(ctx):
